@@ -112,6 +112,18 @@ add("C08", "exploration",
     "deterministic simulation of record-order histories: exhaustive permutation of seeded alignment multisets vs reference model; "
     "order-permuted pipeline runs")
 
+add("C15", "exploration",
+    "Two layers. Machine: a seeded Hypothesis RuleBasedStateMachine (rules add_gene_info, add_read, close_and_read_back, "
+    "multimapper_files) builds assignment streams with every field drawn from its documented domain, writes them with the real "
+    "TmpFileAssignmentPrinter and reads them back with both real readers (full: field-wise equality; abridged: projection equality "
+    "and identical record sequence = byte alignment), compares the compact record of the --high_memory object path with the one "
+    "of the stream path, and round-trips the *_multimappers_* framing and the _info file. Pipeline: a --keep_tmp run followed by "
+    "a --read_assignments run under another hash seed/threads/schedule must reproduce the first run's outputs.",
+    "Trusted: the list model and field extractors; reader calls are bounded by a watchdog (a misaligned stream may loop 2^32 "
+    "times); exon lists are non-empty and strings shorter than 65535 bytes (outside the format's domain otherwise).",
+    "deterministic simulation of record histories through storage: Hypothesis stateful machine over the real writer and both real "
+    "readers; saved-run reuse under a different cell", qt=1200, tt=3000)
+
 PENDING = {p: "simulation target (DESIGN.md sections 3-4) whose check is not registered in this revision yet"
            for p in ["C02", "C03", "C05", "C07", "C08", "C09", "C10", "C12", "C15", "C17", "C18", "C20"]}
 
